@@ -85,6 +85,8 @@ type recvT struct {
 	V    int  `json:"v"`
 	Seed bool `json:"seed"`
 	Rest int  `json:"rest"`
+	// Type: "ADD" | "UPDATE" | "REMOVE" for a collection change, "" for a Value's
+	Type string `json:"type"`
 	// the message as the subscriber holds it: looked at again when the run is over (a subscriber may look at
 	// what it was handed at any later time, see lookAgain)
 	src proto.Message
@@ -180,6 +182,9 @@ type world struct {
 	snaps    int           // listener copies taken by writers so far (one per commit, in commit order)
 	lsnOf    map[int64]any // goroutine of a subscriber -> its bus listener
 	stopped  map[any]bool  // bus listeners whose watcher has closed them
+	// dsnap: the schedule comes from the variant whose Delete unlocks before it sends (it has DSnap steps):
+	// deleting writers also park where the send begins
+	dsnap bool
 }
 
 // the world of the run in progress; goroutines left over from an earlier run (listener watchers
@@ -224,8 +229,14 @@ func hook(point string, obj any, args ...any) {
 	}
 	p := w.procs[g]
 	forced := w.forced
+	gate := gates[point]
+	if point == "send.snap.begin" && w.dsnap {
+		if wi, ok := w.writerOf[g]; ok && w.progs[wi-1].Op == "del" {
+			gate = true
+		}
+	}
 	w.mu.Unlock()
-	if !forced || p == nil || !gates[point] {
+	if !forced || p == nil || !gate {
 		return
 	}
 	p.arrived <- point
@@ -364,7 +375,8 @@ func (s subscription) recv(d time.Duration) (recvT, bool) {
 		if !ok {
 			return recvT{}, false
 		}
-		r := recvT{ID: idIndex(e.Id), V: val(e.NewValue), Seed: e.SeedValue, Rest: rest(e.NewValue), src: e.NewValue}
+		r := recvT{ID: idIndex(e.Id), V: val(e.NewValue), Seed: e.SeedValue, Rest: rest(e.NewValue), src: e.NewValue,
+			Type: e.ChangeType.String()}
 		if e.ChangeType == types.ChangeType_REMOVE {
 			r.V, r.Rest, r.src = absent, -1, nil
 		}
@@ -396,6 +408,11 @@ func build(c caseT) target {
 func newWorld(c caseT, forced bool) *world {
 	w := &world{forced: forced, procs: map[int64]*proc{}, writerOf: map[int64]int{}, progs: c.Progs, subAfter: map[int64]int{},
 		lsnOf: map[int64]any{}, stopped: map[any]bool{}}
+	for _, st := range c.Sched {
+		if st.A == "DSnap" {
+			w.dsnap = true
+		}
+	}
 	cur.Store(w)
 	return w
 }
@@ -478,7 +495,7 @@ func runForced(c caseT) runLog {
 	for _, st := range c.Sched {
 		ok := true
 		switch st.A {
-		case "Read", "Change", "Commit", "PubSnap", "Deliver", "DRead", "DCheck", "DLock":
+		case "Read", "Change", "Commit", "PubSnap", "Deliver", "DRead", "DCheck", "DLock", "DSnap":
 			ok = advance(writers[st.P-1], stepWait)
 		case "SubSnap", "SubListen":
 			ok = advance(subProcs[st.P-1], stepWait)
